@@ -13,6 +13,10 @@ type ReturnStatement struct {
 func (rs *ReturnStatement) Evaluate(dc *context.DataContext, Vars map[string]reflect.Value) (reflect.Value, error, bool) {
 	if rs.Expression != nil {
 		value, e := rs.Expression.Evaluate(dc, Vars)
+		if e != nil {
+			//the rule failed, it did not return
+			return reflect.ValueOf(nil), e, false
+		}
 		return value, e, true
 	}
 	return reflect.ValueOf(nil), nil, true
